@@ -227,6 +227,7 @@ def handle (ws : List String) : String :=
   | ["noin", form, tree, _src, toks] => handleNoIn form tree toks
   | ["asire", nlbits, stmts, toks, _src] => handleAsiRe nlbits stmts toks
   | "obj" :: rest => Lit.handleObj rest
+  | "numadj" :: rest => Lit.handleNumAdj rest
   | "num" :: rest => Lit.handleNum rest
   | "str" :: rest => Lit.handleStr rest
   | _ => "bad-op bad-op -"
